@@ -249,6 +249,11 @@ def schedules(fam):
         out.append(S(fam, "resetwhileloading", [opn("c1"), tk('"t1"'), dict(sub("c1", "a"), **st), dict(reply("access", "a"), **st),
                                                 {"op": "reset", "res": [], "acc": ["a"], "settle": True}, dict(reply("get", "a"), **st),
                                                 dict(reply("get", "b"), **st), dict(reply("access", "a", out="deny"), **st), Q, ev("a", "custom"), Q]))
+        # a call joins the access request of a subscribe on the same resource; the answer refuses get: the subscribe is
+        # refused and its subscription given up - the call must still be answered (forwarded if call is granted)
+        for outc in ("callonly", "deny", "err"):
+            out.append(S(fam, "calljoinsdenied-" + outc, [opn("c1"), tk('"t1"'), dict(sub("c1", "a"), **st), call("a"), dict(reply("access", "a", out=outc), **st),
+                                                          dict(reply("get", "a"), **st), dict(reply("get", "b"), **st), dict(reply("call", "a"), **st), Q]))
         # a call is answered with a resource response for a resource whose subscribe request of the same connection is still
         # waiting for its access answer: the data must wait for a verdict too (and a refusal leaves nothing behind)
         out.append(S(fam, "resrespwhileaccess", [opn("c1"), tk('"t1"'), dict(sub("c1", "b"), **st), dict(reply("get", "b"), **st), call("a"),
